@@ -20,20 +20,21 @@ static void *handler(char c, spif_charptr_t buff, void *state)
 static void *handler_A(spif_charptr_t b, void *s) { return handler('A', b, s); }
 static void *handler_B(spif_charptr_t b, void *s) { return handler('B', b, s); }
 
-enum { L_COMMENT, L_BLANK, L_BEGIN_A, L_BEGIN_B, L_BEGIN_a, L_BEGIN_ZZ, L_END, L_END_A, L_T1, L_T2, L_V, L_INC1, L_INC2, L_INC3, L_ENDX, L_BEGINX, NKIND };
-static char INCP[3][300];
+enum { L_COMMENT, L_BLANK, L_BEGIN_A, L_BEGIN_B, L_BEGIN_a, L_BEGIN_ZZ, L_END, L_END_A, L_T1, L_T2, L_V, L_INC1, L_INC2, L_INC3, L_ENDX, L_BEGINX, L_INC_MISS, L_INC_NOMAGIC, L_INC_NESTMISS, NKIND };
+static char INCP[6][300];       /* plain, unbalanced, nested, (missing), no magic line, includes a missing file */
 static const char *line_text(int k, char *tmp, size_t n)
 {
     switch (k) {
     case L_COMMENT: return "# c"; case L_BLANK: return ""; case L_BEGIN_A: return "begin A"; case L_BEGIN_B: return "begin B"; case L_BEGIN_a: return "begin a";
     case L_BEGIN_ZZ: return "begin zz"; case L_END: return "end"; case L_END_A: return "end A"; case L_T1: return "t1"; case L_T2: return "  t2 two  "; case L_V: return "v $V";
     case L_INC1: case L_INC2: case L_INC3: snprintf(tmp, n, "%%include %s", INCP[k - L_INC1]); return tmp;
+    case L_INC_MISS: case L_INC_NOMAGIC: case L_INC_NESTMISS: snprintf(tmp, n, "%%include %s", INCP[3 + k - L_INC_MISS]); return tmp;
     case L_ENDX: return "endx"; default: return "beginx";
     }
 }
 /* the reference reading of a flattened line list */
 typedef struct { char ctx; long state; } frame_t;
-static frame_t STK[300]; static int DEPTH; static long m_token; static int m_null_errors, m_unknown_ctx;
+static frame_t STK[300]; static int DEPTH; static long m_token; static int m_null_errors, m_unknown_ctx, m_inc_errors;
 static void m_emit(char ctx, char kind, const char *text, long state_in) { if (NEXP < MAXEV) { ev_t *e = &EXP[NEXP++]; e->ctx = ctx; e->kind = kind; e->state_in = state_in; snprintf(e->text, sizeof e->text, "%s", text); } }
 static long m_call(char ctx, char kind, const char *text, long state_in)
 {
@@ -59,6 +60,8 @@ static void m_line(int k)
     case L_END: case L_END_A:
         if (DEPTH > 0) { long r = m_call(STK[DEPTH].ctx, 'E', "", STK[DEPTH].state); DEPTH--; STK[DEPTH].state = r; } return;
     case L_INC1: case L_INC2: case L_INC3: m_include(k - L_INC1); return;
+    case L_INC_MISS: case L_INC_NOMAGIC: m_inc_errors++; return;                         /* a failed include is reported and skipped; the including file carries on */
+    case L_INC_NESTMISS: m_line(L_T1); m_inc_errors++; m_line(L_T2); return;
     default: {
         const char *t = k == L_T1 ? "t1" : (k == L_T2 ? "t2 two" : (k == L_V ? "v val" : (k == L_ENDX ? "endx" : "beginx")));
         STK[DEPTH].state = m_call(STK[DEPTH].ctx, 'T', t, STK[DEPTH].state); return; }
@@ -70,7 +73,7 @@ static void setup(void)
     spifconf_init_subsystem();
     spifconf_register_context((spif_charptr_t) "A", handler_A);
     spifconf_register_context((spif_charptr_t) "B", handler_B);
-    NGOT = NEXP = 0; g_token = 0; m_token = 0; DEPTH = 0; STK[0].ctx = '0'; STK[0].state = 0; m_null_errors = m_unknown_ctx = 0; g_cap_bad = 0;
+    NGOT = NEXP = 0; g_token = 0; m_token = 0; DEPTH = 0; STK[0].ctx = '0'; STK[0].state = 0; m_null_errors = m_unknown_ctx = m_inc_errors = 0; g_cap_bad = 0;
     g_errors = g_warnings = 0; g_spawns = 0; g_open_files = g_opens = 0;
 }
 static void prepare_includes(void)
@@ -79,7 +82,10 @@ static void prepare_includes(void)
     if (pid == (int) getpid()) return;
     pid = (int) getpid();
     char b[1000];
-    for (int i = 0; i < 3; i++) snprintf(INCP[i], sizeof INCP[i], "%s/inc%d-%d.cfg", scratch(), i + 1, pid);
+    for (int i = 0; i < 6; i++) snprintf(INCP[i], sizeof INCP[i], "%s/inc%d-%d.cfg", scratch(), i + 1, pid);
+    unlink(INCP[3]);
+    snprintf(b, sizeof b, "no magic here\nt1\n"); write_file(INCP[4], b, strlen(b));
+    snprintf(b, sizeof b, "<verif-1.0>\nt1\n%%include %s\n  t2 two  \n", INCP[3]); write_file(INCP[5], b, strlen(b));
     snprintf(b, sizeof b, "<verif-1.0>\nt1\n  t2 two  \n"); write_file(INCP[0], b, strlen(b));
     snprintf(b, sizeof b, "<verif-1.0>\nbegin A\nt1\n"); write_file(INCP[1], b, strlen(b));
     snprintf(b, sizeof b, "<verif-1.0>\n%%include %s\nv $V\n", INCP[0]); write_file(INCP[2], b, strlen(b));
@@ -116,20 +122,20 @@ static void run_file(const int *kinds, int n, const char *shape)
     g_env_on = 0; g_ledger_on = 0; g_allow_fork = 1;
     if (!r) FAIL("spifconf_parse", "model:return", shape, "returned NULL for a readable file with the magic line"); else FREE(r);
     int nullerr = 0; (void) nullerr;
-    if (g_errors != m_null_errors + m_unknown_ctx) FAIL("spifconf_parse_line", "model:diagnostics", shape, "%d error diagnostics, expected %d (text in the null context) + %d (unknown context names); last: %s", g_errors, m_null_errors, m_unknown_ctx, g_last_error);
+    if (g_errors != m_null_errors + m_unknown_ctx + m_inc_errors) FAIL("spifconf_parse_line", "model:diagnostics", shape, "%d error diagnostics, expected %d (text in the null context) + %d (unknown context names) + %d (failed includes); last: %s", g_errors, m_null_errors, m_unknown_ctx, m_inc_errors, g_last_error);
     compare_and_finish(shape, DEPTH);
 }
 static void f_desc(uint64_t idx, void *ctx, char *b, size_t n)
 {
     int d[12]; char tmp[400]; size_t o = 0; (void) ctx; mc_word_decode(idx, NKIND, g_n, d);
     o += (size_t) snprintf(b, n, "config file:");
-    for (int i = 0; i < g_n; i++) { const char *t = line_text(d[i], tmp, sizeof tmp); if (d[i] >= L_INC1 && d[i] <= L_INC3) t = d[i] == L_INC1 ? "%include <plain>" : (d[i] == L_INC2 ? "%include <unbalanced: begin A, t1>" : "%include <nested: includes plain, then v $V>"); o += (size_t) snprintf(b + o, n - o, " [%s]", t); }
+    for (int i = 0; i < g_n; i++) { const char *t = line_text(d[i], tmp, sizeof tmp); if (d[i] >= L_INC_MISS) t = d[i] == L_INC_MISS ? "%include <missing file>" : (d[i] == L_INC_NOMAGIC ? "%include <file without the magic line>" : "%include <t1, include of a missing file, t2>"); else if (d[i] >= L_INC1 && d[i] <= L_INC3) t = d[i] == L_INC1 ? "%include <plain>" : (d[i] == L_INC2 ? "%include <unbalanced: begin A, t1>" : "%include <nested: includes plain, then v $V>"); o += (size_t) snprintf(b + o, n - o, " [%s]", t); }
 }
 static void f_case(uint64_t idx, void *ctx)
 {
     int d[12]; (void) ctx; mc_word_decode(idx, NKIND, g_n, d);
     prepare_includes();
-    int nb = 0, ne = 0, inc = 0; for (int i = 0; i < g_n; i++) { if (d[i] >= L_BEGIN_A && d[i] <= L_BEGIN_ZZ) nb++; if (d[i] == L_END || d[i] == L_END_A) ne++; if (d[i] >= L_INC1 && d[i] <= L_INC3) inc++; }
+    int nb = 0, ne = 0, inc = 0; for (int i = 0; i < g_n; i++) { if (d[i] >= L_BEGIN_A && d[i] <= L_BEGIN_ZZ) nb++; if (d[i] == L_END || d[i] == L_END_A) ne++; if ((d[i] >= L_INC1 && d[i] <= L_INC3) || d[i] >= L_INC_MISS) inc++; }
     const char *shape = inc ? "with %include" : (nb == ne ? (nb ? "balanced blocks" : "no blocks") : (nb > ne ? "unclosed blocks" : "surplus end"));
     mc_set_shape(shape);
     run_file(d, g_n, shape);
@@ -191,7 +197,7 @@ int main(int argc, char **argv)
 {
     mc_init("C09", argc, argv);
     N = (int) mc_arg_int("N", mc_thorough() ? 5 : 3);
-    mc_info("alphabet", "files of <= %d lines over 16 line kinds {# c, blank, begin A|B|a|zz(unknown), end, end A, t1, '  t2 two  ', 'v $V', %%include plain|unbalanced|nested, endx, beginx}; "
+    mc_info("alphabet", "files of <= %d lines over 19 line kinds {# c, blank, begin A|B|a|zz(unknown), end, end A, t1, '  t2 two  ', 'v $V', %%include plain|unbalanced|nested|missing|without magic line|file that includes a missing file, endx, beginx}; "
             "contexts A, B registered with recording handlers, null context built in; depth sweep 1..255 balanced and unbalanced; include-chain sweep 1..30", N);
     mc_e2_level("depth", 255, 255 * 2, d_case, d_desc, NULL);
     mc_e2_level("include_chain", 30, 30, i_case, i_desc, NULL);
